@@ -17,8 +17,11 @@ package license
 import (
 	"crypto/rand"
 	"encoding/binary"
+	"errors"
 	"fmt"
 	"strings"
+
+	"github.com/golang/snappy"
 
 	"github.com/emitter-io/emitter/internal/security"
 )
@@ -81,6 +84,36 @@ func Parse(data string) (license License, err error) {
 	default:
 		return parseV1(data)
 	}
+}
+
+// errInvalid is returned when the license declares sizes it can not possibly have.
+var errInvalid = errors.New("license: the license provided is not valid")
+
+// decompress decodes the compressed license. The license is decoded from an (untrusted)
+// string, so the size it declares and the sizes of the encryption key and salt which follow
+// are verified against the length of the data before anything is allocated for them.
+func decompress(data []byte) ([]byte, error) {
+	if n, err := snappy.DecodedLen(data); err != nil {
+		return nil, err
+	} else if n > 32*len(data)+1024 {
+		return nil, errInvalid
+	}
+
+	raw, err := snappy.Decode(nil, data)
+	if err != nil {
+		return nil, err
+	}
+
+	// The license starts with two byte slices, each prefixed by its length
+	rest := raw
+	for i := 0; i < 2; i++ {
+		size, n := binary.Uvarint(rest)
+		if n <= 0 || size > uint64(len(rest)-n) {
+			return nil, errInvalid
+		}
+		rest = rest[n+int(size):]
+	}
+	return raw, nil
 }
 
 // RandN generates a crypto-random N bytes.
